@@ -535,6 +535,7 @@ func init() {
 			c.rulePairing("E6.send-recorded")
 			c.ruleResetComplete("E6.reset-complete")
 			c.ruleAddPathDirection("E6.addpath-direction")
+			c.rulePeerDownResets("E6.peerdown-resets")
 		},
 	})
 }
